@@ -239,6 +239,9 @@ func entries(n int, wide bool) []Ent {
 		l2 := libE
 		l2.Start, l2.Off = lib+0x1000, 0x2000
 		return []Ent{mainE, l1, l2}
+	case 8: // the main binary, a second executable file that is no library (a plug-in), a library
+		plug := Ent{Start: 0x5000, Limit: 0x6000, File: "/bin/plugin.bin", ID: "0a0b0c", Exec: true}
+		return []Ent{libE, mainE, plug}
 	case 7: // two adjacent regions of the same file whose offsets do not continue: two mappings
 		l1 := libE
 		l1.Limit = lib + 0x1000
